@@ -183,7 +183,7 @@ namespace pika::thread_pool_bulk_detail {
             {
                 operation_state* const op_state;
                 Shape const n;
-                std::uint32_t const chunk_size;
+                std::uint64_t const chunk_size;
                 std::uint32_t const worker_thread;
 
                 // Visit the values sent by the predecessor sender.
@@ -258,11 +258,15 @@ namespace pika::thread_pool_bulk_detail {
             // a total number of items n. Returns a power-of-2 chunk
             // size that produces at most 8 and at least 4 chunks per
             // worker thread.
-            static constexpr std::uint32_t get_chunk_size(
+            //
+            // The computation is done with 64 bits: with 32 bits a shape
+            // of 2^31 or more either never terminated the loop below
+            // (the product wrapped around) or was silently truncated.
+            static constexpr std::uint64_t get_chunk_size(
                 std::uint32_t const num_threads, Shape const n)
             {
-                std::uint32_t chunk_size = 1;
-                while (chunk_size * num_threads * 8 < static_cast<std::uint32_t>(n))
+                std::uint64_t chunk_size = 1;
+                while (chunk_size * num_threads * 8 < static_cast<std::uint64_t>(n))
                 {
                     chunk_size *= 2;
                 }
@@ -282,7 +286,7 @@ namespace pika::thread_pool_bulk_detail {
 
             // Spawn a task which will process a number of chunks. If
             // the queue contains no chunks no task will be spawned.
-            void do_work_task(Shape const n, std::uint32_t const chunk_size,
+            void do_work_task(Shape const n, std::uint64_t const chunk_size,
                 std::uint32_t const worker_thread) const
             {
                 task_function task_f{this->op_state, n, chunk_size, worker_thread};
@@ -325,7 +329,7 @@ namespace pika::thread_pool_bulk_detail {
             // from the predecessor sender. This thread participates in
             // the work and does not need a new task since it already
             // runs on a task.
-            void do_work_local(Shape n, std::uint32_t chunk_size, std::uint32_t worker_thread) const
+            void do_work_local(Shape n, std::uint64_t chunk_size, std::uint32_t worker_thread) const
             {
                 task_function{this->op_state, n, chunk_size, worker_thread}();
             }
